@@ -98,9 +98,18 @@ class Gen:
 
     def step(self):
         from harness import oracles
+        if getattr(self, 'dead', False):
+            return None
         for attempt in range(8):
             self.no_twin = False
-            line = self.draw()
+            try:
+                line = self.draw()
+            except Exception as e:
+                # the implementation raised on a read-only query while the next request was being
+                # chosen: stop extending this script (executing it will show the broken state)
+                self.dead = True
+                self.stats['generator_stopped_by_exception'] = self.stats.get('generator_stopped_by_exception', 0) + 1
+                return None
             if line is None:
                 continue
             try:
@@ -160,7 +169,8 @@ class Gen:
                 hi = [s for s in hi if not any(_is_auto(f) for f in c.faces(s))]
             if not hi:
                 return None
-            s = rnd.choice(hi); fs = list(c.faces(s)); rnd.shuffle(fs)
+            low = [x for x in hi if c.orderOf(x) < c.maxOrder()]       # below the top order: the matrices above are at stake
+            s = rnd.choice(low if low and rnd.random() < 0.7 else hi); fs = list(c.faces(s)); rnd.shuffle(fs)
             n = rnd.choice([None] + [x for x in self.pool if x not in c][:4])
             return 'add %s %s %s %s' % (v, list_s(fs), optname_tok(n), attr_tok(rnd, self.w))
         if op == 'dupbasis':
